@@ -35,7 +35,7 @@ package values
 
 // A Range spanning more than MaxInt64 elements would overflow Len; such ranges are
 // excluded by this invariant (assumed at method entry, checked where a Range is published).
-//@ typeinv values.Range: in_i64(self.e - self.b + 1) && in_i64(self.b) && in_i64(self.e)
+//@ typeinv values.Range: self.e - self.b + 1 <= 9223372036854775807 && in_i64(self.b) && in_i64(self.e)
 
 //@ func (values.Range).Len
 //@ pure
@@ -180,6 +180,11 @@ package values
 //@ method Contains
 //@ requires arg: arg0 != nil
 //@ assigns F$values.dropWrapper$d, F$values.dropWrapper$v, F$values.dropWrapper$Once
+//@ ensures drops: invkept(values.dropWrapper)
+//@ method Int
+//@ assigns F$values.dropWrapper$d, F$values.dropWrapper$v, F$values.dropWrapper$Once
+//@ panics values.TypeError
+//@ ensures range: in_i64(result)
 //@ ensures drops: invkept(values.dropWrapper)
 //@ method IndexValue
 //@ requires arg: arg0 != nil
@@ -531,3 +536,9 @@ package values
 //@ panics nothing
 //@ requires inrange: 0 <= i && i < len(s) && 0 <= j && j < len(s)
 //@ assigns nothing
+
+//@ func values.NewRange
+//@ props C11 C01
+//@ panics nothing
+//@ assigns nothing
+//@ ensures def: result.b == b && result.e == e
